@@ -18,7 +18,7 @@ import time
 VERIF = os.path.dirname(os.path.dirname(os.path.dirname(os.path.abspath(__file__))))
 REPO = os.environ.get("VERIF_REPO", "/repo")
 COQ = os.path.join(VERIF, "coq")
-BUILD = os.path.join(VERIF, "build")
+BUILD = os.environ.get("VERIF_BUILD", os.path.join(VERIF, "build"))
 EVID = os.path.join(VERIF, "evidence")
 REPLAY = os.path.join(VERIF, "replay")
 GUARD = "LIBKDUMPFILE_VERIF"
@@ -56,10 +56,20 @@ def sh(cmd, timeout=600, cwd=None, env=None, input=None):
 # Coq side
 # ----------------------------------------------------------------------------
 
+def coq_sources():
+    return sorted(os.path.relpath(p, COQ) for p in
+                  glob.glob(os.path.join(COQ, "theories", "**", "*.v"), recursive=True))
+
+
 def coq_makefile():
-    mk = os.path.join(COQ, "Makefile")
+    """_CoqProject is generated: every .v under coq/theories (coq_makefile/coqdep order them)."""
     cp = os.path.join(COQ, "_CoqProject")
-    if not os.path.exists(mk) or os.path.getmtime(mk) < os.path.getmtime(cp):
+    want = "-Q theories KdV\n-arg -w -arg -notation-overridden,-deprecated-hint-without-locality," \
+           "-deprecated-instance-without-locality,-ambiguous-paths\n" + "\n".join(coq_sources()) + "\n"
+    mk = os.path.join(COQ, "Makefile")
+    if not os.path.exists(cp) or open(cp).read() != want or not os.path.exists(mk):
+        with open(cp, "w") as f:
+            f.write(want)
         rc, out = sh(["coq_makefile", "-f", "_CoqProject", "-o", "Makefile"], cwd=COQ)
         if rc != 0:
             raise RuntimeError("coq_makefile failed:\n" + out)
@@ -81,10 +91,6 @@ def forbidden_scan():
             m = FORBIDDEN.search(line)
             if m:
                 hits.append("%s:%d: %s" % (os.path.relpath(p, VERIF), i, m.group(0)))
-    cp = open(os.path.join(COQ, "_CoqProject")).read()
-    for bad in ("-type-in-type", "-impredicative-set", "-vos", "-vok"):
-        if bad in cp:
-            hits.append("_CoqProject: " + bad)
     return hits
 
 
@@ -185,33 +191,75 @@ def newest(paths):
     return max([os.path.getmtime(p) for p in paths] or [0])
 
 
+def extract_fragments():
+    """coq/extract.d/*.txt -> (modules, names); VERIF_ENGINES restricts to some fragments."""
+    only = os.environ.get("VERIF_ENGINES")
+    mods, names = [], []
+    for p in sorted(glob.glob(os.path.join(COQ, "extract.d", "*.txt"))):
+        if only and os.path.basename(p)[:-4] not in only.split(","):
+            continue
+        for l in open(p):
+            l = l.split("#")[0].split()
+            if len(l) == 2 and l[0] == "module" and l[1] not in mods:
+                mods.append(l[1])
+            elif len(l) == 2 and l[0] == "name" and l[1] not in names:
+                names.append(l[1])
+    return mods, names
+
+
 def build_ml_driver():
-    """Extract the models and build build/kdv_driver.  Returns (ok, log)."""
+    """Extract the models (one Separate Extraction, ExtrOcamlBasic only) and build
+    build/kdv_driver from ml/util.ml + ml/eng_*.ml.  Returns (ok, log)."""
     gen = os.path.join(BUILD, "ml")
     exe = os.path.join(BUILD, "kdv_driver")
-    srcs = glob.glob(os.path.join(COQ, "theories", "**", "*.v"), recursive=True) + \
-        glob.glob(os.path.join(VERIF, "ml", "*.ml"))
-    if os.path.exists(exe) and os.path.getmtime(exe) >= newest(srcs):
-        return True, "up to date"
-    # Extract.v needs every model .vo
-    ext = open(os.path.join(COQ, "theories", "Extract.v")).read()
-    mods = re.search(r"From KdV Require Import(.*?)\.\s*$", ext, re.S | re.M).group(1).split()
+    mods, names = extract_fragments()
+    only = os.environ.get("VERIF_ENGINES")
+    engs = sorted(glob.glob(os.path.join(VERIF, "ml", "eng_*.ml")))
+    if only:
+        engs = [e for e in engs if os.path.basename(e)[4:-3] in only.split(",")]
+    srcs = [os.path.join(COQ, "theories", m.replace(".", "/") + ".v") for m in mods] + engs + \
+        [os.path.join(VERIF, "ml", "util.ml")] + glob.glob(os.path.join(COQ, "extract.d", "*.txt"))
+    stamp = os.path.join(BUILD, "kdv_driver.stamp")
+    sig = hashlib.sha256(repr((only, [(p, os.path.getmtime(p)) for p in srcs])).encode()).hexdigest()
+    if os.path.exists(exe) and os.path.exists(stamp) and open(stamp).read() == sig:
+        # also require the model .vo files to be current
+        pass
     rc, out = coq_make(["theories/%s.vo" % m.replace(".", "/") for m in mods])
     if rc != 0:
         return False, out[-3000:]
+    vos = [os.path.join(COQ, "theories", m.replace(".", "/") + ".vo") for m in mods]
+    if os.path.exists(exe) and os.path.exists(stamp) and open(stamp).read() == sig \
+            and os.path.getmtime(exe) >= newest(vos):
+        return True, "up to date"
     shutil.rmtree(gen, ignore_errors=True)
     os.makedirs(gen)
-    rc, out = sh(["coqc", "-Q", os.path.join(COQ, "theories"), "KdV",
-                  os.path.join(COQ, "theories", "Extract.v")], cwd=gen, timeout=600)
+    ev = "(* generated from coq/extract.d/*.txt: the only file with Extraction commands *)\n" \
+         "From Coq Require Import Extraction ExtrOcamlBasic.\n" \
+         "From KdV Require Import %s.\nExtraction Language OCaml.\n" \
+         "Separate Extraction\n  nat\n  %s.\n" % (" ".join(mods), "\n  ".join(names))
+    with open(os.path.join(gen, "Extract.v"), "w") as f:
+        f.write(ev)
+    rc, out = sh(["coqc", "-Q", os.path.join(COQ, "theories"), "KdV", "Extract.v"], cwd=gen, timeout=900)
     if rc != 0:
         return False, out[-3000:]
-    for f in glob.glob(os.path.join(VERIF, "ml", "*.ml")):
+    shutil.copy(os.path.join(VERIF, "ml", "util.ml"), gen)
+    for f in engs:
         shutil.copy(f, gen)
-    rc, out = sh(["sh", "-c", "ocamlfind ocamlopt -w -a -o ../kdv_driver.tmp "
-                  "$(ocamlfind ocamldep -sort *.ml *.mli)"], cwd=gen, timeout=600)
+    with open(os.path.join(gen, "driver.ml"), "w") as f:
+        f.write("(* generated: driver <engine> <casefile>: one output line per input line *)\n"
+                "let engines : (string * (string -> string)) list = Stdlib.List.concat [\n%s]\n"
+                "let () =\n  let eng = Sys.argv.(1) and path = Sys.argv.(2) in\n"
+                "  let f = try Stdlib.List.assoc eng engines with Not_found -> failwith (\"unknown engine \" ^ eng) in\n"
+                "  Stdlib.List.iter (fun l ->\n    let r = try f l with e -> \"EXC \" ^ Printexc.to_string e in\n"
+                "    print_string r; print_newline ()) (Util.read_lines path)\n"
+                % "".join("  %s.engines;\n" % os.path.basename(e)[:-3].capitalize() for e in engs))
+    rc, out = sh(["sh", "-c", "ocamlfind ocamlopt -O3 -w -a -o ../kdv_driver.tmp "
+                  "$(ocamlfind ocamldep -sort *.ml *.mli) 2>&1"], cwd=gen, timeout=900)
     if rc != 0:
         return False, out[-3000:]
     os.replace(os.path.join(BUILD, "kdv_driver.tmp"), exe)
+    with open(stamp, "w") as f:
+        f.write(sig)
     return True, out
 
 
